@@ -234,6 +234,14 @@ seed("C17-r2-3", "C17", "float16 ln2lo constant typo", "float16, k = +-1, 0.3464
      "C17 quick: exp:reconstruction", first_result="missed (HELD): the reconstruction was judged by lattice steps between the rounded values, which accepts up to 1.5 ULP",
      strengthened="both reductions are judged by the real-valued error in ULPs of x (resp. of the remainder), as the statement says")
 
+seed("C15-r2-1", "C15", "(see notes) conversion of tiny negative values returns +0", "values below half the smallest subnormal with a negative sign", "C15 quick: mpf2float-rounding-zero")
+seed("C15-r2-2", "C15", "flush threshold table aligned with finfo.minexp (one binade too low for mpmath's exp + bc)", "flush_subnormals=True and a result in [tiny/2, tiny)",
+     "C15 quick: mpf2float-flush-requested / backend-flush-requested-result", first_result="missed (HELD): results in the subnormal range were skipped whenever flushing had been requested",
+     strengthened="explicitly requested flushing is judged: a value that rounded to p bits is below the smallest normal must come back as a signed zero")
+seed("C15-r2-3", "C15", "mpc results converted through Python complex", "complex64 components within 2^-53 of a float32 tie (double rounding); complex components when flushing is requested",
+     "C15 quick: backend-complex-component", first_result="missed (HELD): the backend was driven with real inputs only",
+     strengthened="task_backend_complex: identity / conjugate / negate / square on complex64 and complex128 (x*x an exact tie, y tiny), every flush setting, scalar and array forms")
+
 for id_, meta in T.items():
     d = os.path.join(ROOT, id_)
     if not os.path.isdir(d):
